@@ -1,6 +1,7 @@
     // ---- spec side of util::BigInt (view = mathematical value + optional size)
     impl BigInt {
         pub open spec fn val(&self) -> int { self.bigint@ }
+        pub open spec fn size_or_min_size_spec(&self) -> usize { match self.size { Some(s) => s, None => min_size_spec(self.val()) as usize } }
         /// a sized non-negative value fits its size (holds for literals, slices, concatenations, constrained arguments)
         pub open spec fn fits_size(&self) -> bool {
             match self.size { Some(s) => self.val() >= 0 ==> self.val() < vstd::arithmetic::power2::pow2(s as nat), None => true }
